@@ -62,6 +62,77 @@ func (f *fakeGossip) wire() [][][]any {
 	return out
 }
 
+// refusingGossip is a transport that refuses some unicasts; the first call can be held until the test lets it go.
+type refusingGossip struct {
+	mu      sync.Mutex
+	calls   int
+	refuse  map[int]bool // call numbers (1-based) answered with an error
+	hold    chan struct{}
+	holding chan struct{}
+	passed  []int
+}
+
+func (f *refusingGossip) GossipUnicast(dst mesh.PeerName, msg []byte) error {
+	f.mu.Lock()
+	f.calls++
+	n := f.calls
+	if fr, err := message.DecodeFrame(msg); err == nil {
+		for _, m := range fr {
+			var i int
+			fmt.Sscanf(string(m.Payload[:min(len(m.Payload), 16)]), "m:%d", &i)
+			f.passed = append(f.passed, i)
+		}
+	} else {
+		f.passed = append(f.passed, -1)
+	}
+	f.mu.Unlock()
+	if n == 1 && f.hold != nil {
+		close(f.holding)
+		<-f.hold
+	}
+	if f.refuse[n] {
+		return fmt.Errorf("peer unreachable")
+	}
+	return nil
+}
+func (f *refusingGossip) GossipBroadcast(update mesh.GossipData)       {}
+func (f *refusingGossip) GossipNeighbourSubset(update mesh.GossipData) {}
+
+// forwardWithRefusals: messages of `size` bytes are handed to a real peer, the flush runs, the transport refuses the
+// unicasts listed, and (interleave) one more message is handed over while the first unicast is in progress.
+func forwardWithRefusals(queued, size int, refuse []int, interleave bool) map[string]any {
+	g := &refusingGossip{refuse: map[int]bool{}}
+	for _, r := range refuse {
+		g.refuse[r] = true
+	}
+	if interleave {
+		g.hold, g.holding = make(chan struct{}), make(chan struct{})
+	}
+	p := cluster.VerifNewPeer(g, mesh.PeerName(77))
+	n := 0
+	for i := 0; i < queued; i++ {
+		n++
+		m := mkMessage(size, fmt.Sprintf("m:%d ", n))
+		p.Send(&m)
+	}
+	done := make(chan struct{})
+	go func() { p.VerifFlush(); close(done) }()
+	if interleave {
+		<-g.holding
+		n++
+		m := mkMessage(size, fmt.Sprintf("m:%d ", n))
+		p.Send(&m)
+		close(g.hold)
+	}
+	<-done
+	for i := 0; i < 3; i++ {
+		p.VerifFlush() // later ticks
+	}
+	g.mu.Lock()
+	defer g.mu.Unlock()
+	return map[string]any{"e": "forward", "n": n, "passed": append([]int{}, g.passed...), "refused_calls": refuse, "interleaved": interleave, "size": size}
+}
+
 var gatePC = map[string]string{"peer.flush.nonempty": "nonempty", "peer.flush.swapped": "swapped", "peer.flush.sent": "sent"}
 
 type pstep struct {
@@ -373,6 +444,14 @@ func Run(c *core.Ctx) {
 			ok = eq(d[i], fr[i])
 		}
 		fn.Events = append(fn.Events, core.Ev(map[string]any{"e": "codec", "kind": "frame", "class": n, "err": err != nil, "equal": ok}))
+	}
+	// a transport that refuses unicasts (frames of one and of several chunks; a hand-over during the flush)
+	for _, sc := range []struct {
+		queued, size int
+		refuse       []int
+		inter        bool
+	}{{3, 1000, []int{1}, false}, {3, 1000, []int{1}, true}, {3, 6 << 20, []int{1}, true}, {3, 6 << 20, []int{2}, true}, {4, 4 << 20, []int{1, 2}, false}, {2, 6 << 20, []int{2}, true}} {
+		fn.Events = append(fn.Events, core.Ev(forwardWithRefusals(sc.queued, sc.size, sc.refuse, sc.inter)))
 	}
 	// the codecs under concurrent use (flushers of several peers, storage and forwarding encode at the same time and
 	// share the encoder pool): 12 goroutines encode and decode frames / messages of their own; one event per goroutine
